@@ -10,18 +10,20 @@
 (* with Fn(x) an exact count and F(x), the bound mpmath constants of the   *)
 (* table.  The supremum over all x between anchors is not decided.         *)
 (***************************************************************************)
-EXTENDS Ord, KolmogorovTable, Sequences, Integers
+EXTENDS Ord, KolmogorovTable, Sequences, Integers, IOUtils
 
-KCase(id) == KTable[id]
+KT == IF "TIER" \in DOMAIN IOEnv /\ IOEnv.TIER = "thorough" THEN KTableT ELSE KTable
+
+KCase(id) == KT[id]
 Near(a, b, d) == LLE(a, LAdd(b, d)) /\ LLE(b, LAdd(a, d))
 KOK(cnt, a, c) == Near(cnt, a.P, c.B)
 
 One == <<4194304, 0, 0>>    \* 2^64
-KTableOK == \A c \in 1..Len(KTable) :
-               LET A == KTable[c].anchors IN
-               /\ KTable[c].id = c /\ Len(A) >= 10
+KTableOK == \A c \in 1..Len(KT) :
+               LET A == KT[c].anchors IN
+               /\ KT[c].id = c /\ Len(A) >= 10
                /\ \A k \in 1..(Len(A) - 1) : LLE(A[k].P, A[k + 1].P)       \* a CDF along increasing anchors
                /\ \A k \in 1..Len(A) : LLE(A[k].P, One)
-               /\ LLE(<<0, 786432, 0>>, KTable[c].B)                        \* B >= 1.5 * 2^40
+               /\ LLE(<<0, 786432, 0>>, KT[c].B)                        \* B >= 1.5 * 2^40
 ASSUME KTableOK
 =============================================================================
